@@ -176,3 +176,148 @@ Proof.
     specialize (H _ Hin2). unfold qc_is0 in H. apply qc_eqb_eq in H. exact H.
   - apply nth_overflow. exact Hj.
 Qed.
+
+(* ---------------------------------------------------------------------------------------------
+   the executable closed form IS the posterior mean of the executable specification (no transcription to trust):
+   with checked inverses Pe, Px of the covariances, the returned x solves H x = A^T Pe b + Px x0, and whenever H has a
+   checked inverse every solution of these normal equations -- in particular post_mean_exact -- equals x
+   --------------------------------------------------------------------------------------------- *)
+Lemma post_prec_acts m n A Pe Px v : wf_mat n A -> length A = m -> wf_mat m Pe -> length Pe = m -> q_sym m Pe ->
+  wf_mat n Px -> length Px = n -> length v = n ->
+  qmatvec (post_prec n A Pe Px) v = qvadd (qmattvec n A (qmatvec Pe (qmatvec A v))) (qmatvec Px v).
+Proof.
+  intros HA HAm HPe HPem HS HPx HPxn Hv.
+  destruct (atpa_wf n A Pe HA) as [W1 W2].
+  unfold post_prec. rewrite (q_matvec_qmadd n (atpa n A Pe) Px v W1 HPx) by (transitivity n; [exact W2 | symmetry; exact HPxn]).
+  rewrite (q_atpa_matvec m n A Pe v HA HAm HPe HPem HS Hv). reflexivity.
+Qed.
+
+Theorem closed_form_solves_normal_equations fixed m n A b x0 ce cx x Pe Px :
+  cov_guard fixed ce cx ->
+  map_direct fixed m n A b x0 (Some ce) (Some cx) = Val x ->
+  let Ce := dense_of true m ce in let Cx := dense_of true n cx in
+  lg_wf m n A Ce Cx b ->
+  qinv Ce = Some Pe -> qinv Cx = Some Px -> q_sym m Pe ->
+  qmatvec (post_prec n A Pe Px) x = post_rhs n A Pe Px b x0.
+Proof.
+  intros G H Ce Cx (HA & HAm & HCe & HCem & HCx & HCxn & Hb) IPe IPx HS.
+  unfold map_direct in H.
+  rewrite (expand_cov_meant fixed m ce) in H by (destruct G as [G|[G _]]; [left|right]; exact G).
+  rewrite (expand_cov_meant fixed n cx) in H by (destruct G as [G|[_ G]]; [left|right]; exact G).
+  fold Ce Cx in H.
+  destruct (qinv_sound _ _ IPe) as [_ LPe]. destruct (qinv_sound _ _ IPx) as [_ LPx].
+  destruct (qinv_shape _ _ IPe) as [WPe SPe]. destruct (qinv_shape _ _ IPx) as [WPx SPx].
+  rewrite HCem in *. rewrite HCxn in *.
+  assert (HPe : forall v, length v = m -> qmatvec Pe (qmatvec Ce v) = v).
+  { intros v Hv. apply (q_left_inverse m Pe Ce v HCe HCem Hv LPe). }
+  assert (HPx : forall v, length v = n -> qmatvec Px (qmatvec Cx v) = v).
+  { intros v Hv. apply (q_left_inverse n Px Cx v HCx HCxn Hv LPx). }
+  destruct (map_core_balance m n A Ce Cx b x0 HA HAm HCe HCem HCx HCxn Hb x H) as (H0 & Hx & _).
+  pose proof (map_core_gradient_zero m n A Ce Cx b x0 HA HAm HCe HCem HCx HCxn Hb Pe Px HPe HPx x H) as G0.
+  rewrite (post_prec_acts m n A Pe Px x HA HAm WPe SPe HS WPx SPx Hx).
+  unfold post_rhs, post_grad in *.
+  (* A^T Pe (b - A x) - Px (x - x0) = 0 *)
+  assert (L1 : length (qmatvec A x) = m) by (rewrite q_matvec_length; exact HAm).
+  rewrite (q_matvec_vsub Pe b (qmatvec A x) m WPe Hb L1) in G0.
+  rewrite (q_mattvec_vsub n A _ _ HA) in G0 by (rewrite !q_matvec_length; reflexivity).
+  rewrite (q_matvec_vsub Px x x0 n WPx Hx H0) in G0.
+  assert (La : forall u, length (qmattvec n A u) = n) by (intros u; apply q_mattvec_length; exact HA).
+  assert (Lp : forall u, length (qmatvec Px u) = n) by (intros u; rewrite q_matvec_length; exact SPx).
+  apply q_vec_balance; rewrite ?La, ?Lp; try reflexivity.
+  apply q_vsub_zero_eq.
+  - rewrite !q_vsub_length; rewrite ?La, ?Lp; reflexivity.
+  - rewrite G0. f_equal. rewrite q_vsub_length; rewrite ?La; reflexivity.
+Qed.
+
+Theorem normal_equations_unique n H C rhs u v :
+  qinv H = Some C -> length H = n -> wf_mat n H -> length u = n -> length v = n ->
+  qmatvec H u = rhs -> qmatvec H v = rhs -> u = v.
+Proof.
+  intros IC HL HW Hu Hv E1 E2. destruct (qinv_sound _ _ IC) as [_ L]. rewrite HL in L.
+  rewrite <- (q_left_inverse n C H u HW HL Hu L). rewrite <- (q_left_inverse n C H v HW HL Hv L).
+  rewrite E1, E2. reflexivity.
+Qed.
+
+Lemma post_prec_shape n A Pe Px : wf_mat n A -> wf_mat n Px -> length Px = n ->
+  wf_mat n (post_prec n A Pe Px) /\ length (post_prec n A Pe Px) = n.
+Proof.
+  intros HA HPx HL. destruct (atpa_wf n A Pe HA) as [W1 W2]. unfold post_prec, qmadd. split.
+  - unfold wf_mat. apply Forall_forall. intros r Hr. apply in_map_iff in Hr. destruct Hr as [[r1 r2] [<- Hin]].
+    cbn [fst snd]. pose proof (in_combine_l _ _ _ _ Hin) as I1. pose proof (in_combine_r _ _ _ _ Hin) as I2.
+    rewrite q_vadd_length.
+    + eapply Forall_forall in W1; eauto.
+    + eapply Forall_forall in W1; eauto. eapply Forall_forall in HPx; eauto. congruence.
+  - rewrite map_length, combine_length. transitivity (Nat.min n n); [f_equal; [exact W2 | exact HL] | apply Nat.min_id].
+Qed.
+
+Theorem closed_form_equals_posterior_mean fixed m n A b x0 ce cx x y :
+  cov_guard fixed ce cx ->
+  map_direct fixed m n A b x0 (Some ce) (Some cx) = Val x ->
+  post_mean_exact m n A b x0 ce cx = Some y ->
+  let Ce := dense_of true m ce in let Cx := dense_of true n cx in
+  lg_wf m n A Ce Cx b ->
+  (forall Pe, qinv Ce = Some Pe -> q_sym m Pe) ->
+  (forall Pe Px, qinv Ce = Some Pe -> qinv Cx = Some Px -> exists C, qinv (post_prec n A Pe Px) = Some C) ->
+  length y = n -> x = y.
+Proof.
+  intros G H HY Ce Cx W HS HC Hy.
+  destruct (post_mean_exact_spec m n A b x0 ce cx y HY) as (Pe & Px & IPe & IPx & EY).
+  fold Ce in IPe. fold Cx in IPx.
+  pose proof (closed_form_solves_normal_equations fixed m n A b x0 ce cx x Pe Px G H W IPe IPx (HS Pe IPe)) as EX.
+  destruct (HC Pe Px IPe IPx) as [C IC].
+  destruct W as (HA & HAm & HCe & HCem & HCx & HCxn & Hb).
+  destruct (qinv_shape _ _ IPx) as [WPx SPx]. fold Cx in WPx, SPx. rewrite HCxn in *.
+  destruct (post_prec_shape n A Pe Px HA WPx SPx) as [WH LH].
+  unfold map_direct in H.
+  rewrite (expand_cov_meant fixed m ce) in H by (destruct G as [G|[G _]]; [left|right]; exact G).
+  rewrite (expand_cov_meant fixed n cx) in H by (destruct G as [G|[_ G]]; [left|right]; exact G).
+  destruct (map_core_balance m n A _ _ b x0 HA HAm HCe HCem HCx HCxn Hb x H) as (_ & Hx & _).
+  exact (normal_equations_unique n _ C _ x y IC LH WH Hx Hy EX EY).
+Qed.
+
+(* symmetry in the sense used above follows from P^T = P (decidable by computation) *)
+Lemma q_sym_of_transpose k P : wf_mat k P -> qtranspose k P = P -> q_sym k P.
+Proof.
+  intros HP HT u v Hu Hv.
+  rewrite q_dot_comm. rewrite (q_adjoint k P v u HP Hv).
+  rewrite (q_mattvec_as_cols k P u HP).
+  assert (E : qmatvec (qtranspose k P) u = map (fun i => qdot (col 0 P i) u) (seq 0 k))
+    by (unfold qtranspose, transpose, qmatvec, matvec; rewrite map_map; reflexivity).
+  rewrite <- E, HT. apply q_dot_comm.
+Qed.
+
+Lemma q_sym_check k P : forallb (fun r => Nat.eqb (length r) k) P = true -> qcll_eqb (qtranspose k P) P = true -> q_sym k P.
+Proof.
+  intros H1 H2. apply q_sym_of_transpose.
+  - unfold wf_mat. apply Forall_forall. intros r Hr. rewrite forallb_forall in H1. apply Nat.eqb_eq. exact (H1 r Hr).
+  - apply qcll_eqb_eq. exact H2.
+Qed.
+
+(* non-vacuity of closed_form_equals_posterior_mean: a 2x3 problem with full covariance matrices *)
+Lemma equals_example :
+  exists x y,
+    map_direct false 2 3 wA wb (qvec [1; 0; -1]%Q) (Some (CMatrix eCe)) (Some (CMatrix eCx)) = Val x /\
+    post_mean_exact 2 3 wA wb (qvec [1; 0; -1]%Q) (CMatrix eCe) (CMatrix eCx) = Some y /\
+    cov_guard false (CMatrix eCe) (CMatrix eCx) /\
+    lg_wf 2 3 wA (dense_of true 2 (CMatrix eCe)) (dense_of true 3 (CMatrix eCx)) wb /\
+    (forall Pe, qinv (dense_of true 2 (CMatrix eCe)) = Some Pe -> q_sym 2 Pe) /\
+    (forall Pe Px, qinv (dense_of true 2 (CMatrix eCe)) = Some Pe -> qinv (dense_of true 3 (CMatrix eCx)) = Some Px ->
+       exists C, qinv (post_prec 3 wA Pe Px) = Some C) /\
+    length y = 3%nat /\ x = y.
+Proof.
+  eexists. eexists. split; [vm_compute; reflexivity|]. split; [vm_compute; reflexivity|].
+  assert (G : cov_guard false (CMatrix eCe) (CMatrix eCx)) by (right; split; reflexivity).
+  assert (W : lg_wf 2 3 wA (dense_of true 2 (CMatrix eCe)) (dense_of true 3 (CMatrix eCx)) wb).
+  { unfold lg_wf. repeat split; try reflexivity; unfold wf_mat; repeat constructor. }
+  assert (S : forall Pe, qinv (dense_of true 2 (CMatrix eCe)) = Some Pe -> q_sym 2 Pe).
+  { intros Pe H. vm_compute in H. injection H as <-. apply q_sym_check; vm_compute; reflexivity. }
+  assert (C : forall Pe Px, qinv (dense_of true 2 (CMatrix eCe)) = Some Pe -> qinv (dense_of true 3 (CMatrix eCx)) = Some Px ->
+       exists C, qinv (post_prec 3 wA Pe Px) = Some C).
+  { intros Pe Px H1 H2. vm_compute in H1. injection H1 as <-. vm_compute in H2. injection H2 as <-.
+    eexists. vm_compute. reflexivity. }
+  split; [exact G|]. split; [exact W|]. split; [exact S|]. split; [exact C|]. split; [reflexivity|].
+  eapply (closed_form_equals_posterior_mean false 2 3 wA wb (qvec [1; 0; -1]%Q) (CMatrix eCe) (CMatrix eCx)); try eassumption.
+  - vm_compute; reflexivity.
+  - vm_compute; reflexivity.
+  - reflexivity.
+Qed.
